@@ -35,6 +35,9 @@ TRUSTED = [
     "modelled: write_hr_file, get_system_hr (text part), write_WCC_WT_format, read_WCC_WT_format, write_tb_file, "
     "get_system_tb (all three option flags), to_npz/load_npz on the file-name level, PointSymmetry.as_dict/__init__, "
     "the generator reading (duplicates dropped) and closure loop of PointGroup.__init__",
+    "the dropping-writer model dropZeroHam (counterexample dropping_zero_ham_loses_AA) is a labelled non-code variant; that "
+    "the real writer keeps R-vectors with vanishing blocks is checked by the token correspondence and the oracle on systems "
+    "with zero blocks",
     "not modelled (oracle only): np.savez/np.load of the arrays, Rvectors construction, do_at_end_of_init, evaluate_k",
     "Python float formatting '%15.8e' / repr and float() parsing: modelled as rho / identity; the Lean driver's exact "
     "implementation of %15.8e is compared with Python on every token of every written file",
